@@ -184,3 +184,33 @@ func refPECertTable(b []byte) (*RefPE, []RefCertEntry, error) {
 	}
 	return p, out, nil
 }
+
+// refHashedBytes returns the byte string the Authenticode digest is computed
+// over (steps 3-14, padded to 8), for callers that feed it to a verifier.
+func refHashedBytes(b []byte) []byte {
+	p, err := refPEParse(b)
+	if err != nil {
+		harnessf("refHashedBytes: %v", err)
+	}
+	var out []byte
+	out = append(out, b[:p.ChecksumOff]...)
+	out = append(out, b[p.ChecksumOff+4:p.CertDirOff]...)
+	out = append(out, b[p.CertDirOff+8:p.SizeOfHeaders]...)
+	sum := p.SizeOfHeaders
+	secs := append([]RefSection(nil), p.Sections...)
+	sort.SliceStable(secs, func(i, j int) bool { return secs[i].Ptr < secs[j].Ptr })
+	for _, s := range secs {
+		if s.Size == 0 {
+			continue
+		}
+		out = append(out, b[s.Ptr:s.Ptr+s.Size]...)
+		sum += int(s.Size)
+	}
+	if p.FileSize > sum {
+		out = append(out, b[sum:p.FileSize-int(p.CertSize)]...)
+	}
+	if r := p.FileSize % 8; r != 0 {
+		out = append(out, make([]byte, 8-r)...)
+	}
+	return out
+}
